@@ -68,6 +68,7 @@ def run(ctx):
     # comparator decision table over all order types of (day, hour, minute, second)
     grid = [(2023, 1, d, h, mi, s) for d in (30, 31) for h in (5, 6) for mi in (7, 8) for s in (9, 10)]
     # extreme clock fields and days that differ only in month / only in year (the day comparator is part of the instant comparator)
+    grid += [(y, 3, 5, 12, 0, 0) for y in (9, 10, 99, 100, 999, 1000)]
     grid += [(y, m, 5, h, mi, s) for y in (2023, 2024) for m in (3, 7) for (h, mi, s) in ((0, 0, 0), (23, 59, 59), (0, 59, 0), (23, 0, 59))]
 
     def cmp3(ab):
@@ -112,7 +113,8 @@ def run(ctx):
         target = abs_sec((y, m, d, h, mi, s)) + off
         return (CAL.exists(got[0], got[1], got[2]) and got[3] <= 23 and got[4] <= 59 and got[5] <= 59, abs(a - target) <= 0.5 + 1e-3)
     fr_base = [(2023, 1, 31, 23, 59, 59), (2023, 1, 30, 23, 59, 59), (2023, 6, 16, 23, 59, 59), (2024, 2, 29, 23, 59, 59), (2024, 12, 31, 23, 59, 59), (1582, 10, 4, 23, 59, 59),
-               (2023, 6, 16, 11, 59, 59), (2023, 6, 16, 11, 58, 59), (2023, 6, 16, 0, 0, 0), (2023, 6, 16, 12, 0, 0), (2000, 2, 28, 23, 59, 59), (1999, 12, 31, 23, 59, 59)]
+               (2023, 6, 16, 11, 59, 59), (2023, 6, 16, 11, 58, 59), (2023, 6, 16, 0, 0, 0), (2023, 6, 16, 12, 0, 0), (2000, 2, 28, 23, 59, 59), (1999, 12, 31, 23, 59, 59),
+               (1582, 10, 15, 23, 59, 59), (1582, 10, 21, 23, 59, 59), (1582, 10, 30, 23, 59, 59), (1582, 10, 31, 23, 59, 59), (1582, 10, 3, 23, 59, 59), (9999, 12, 30, 23, 59, 59)]
     table(ctx, 'JD-CLOCK', 'JD:fractional', [(b, off) for b in fr_base for off in (-0.49, -0.3, 0.0, 0.3, 0.49, 0.51, 0.7, 0.99)], frac, lambda x: (True, True),
           'any fractional Julian date yields a valid instant within half a second (carries 60->minute, 60->hour, 24->next day incl. month/year ends)', str, fn_site(p, 'JulianDay::get_solar_time'))
 
